@@ -180,7 +180,8 @@ func checkParse(src string) (problem string) {
 
 var tokenPool = []string{"a", "x1", "1", "2.5", "0x1f", `"s"`, "'q'", "`r`", "true", "nil", "if", "elif", "else", "for", "in", "break", "continue",
 	"+", "-", "*", "/", "%", "==", "!=", "<", "<=", ">", ">=", "&&", "||", "!", "=", "+=", "-=", "(", ")", "[", "]", "{", "}", ",", ":", ";", ".", "\n", "# c\n",
-	"f(", "len(a)", "[1, 2]", `{"k": 1}`, "a[0]", "a[1:2]", "a.b", `"""m"""`, "1e", "0x", "1e+", "1.2.3", "'", `"`, "`", `"\z"`, "&", "|", "@", "\x00", "\xff", "é"}
+	"f(", "len(a)", "[1, 2]", `{"k": 1}`, "a[0]", "a[1:2]", "a.b", `"""m"""`, "1e", "0x", "1e+", "1.2.3", "'", `"`, "`", `"\z"`, "&", "|", "@", "\x00", "\xff", "é",
+	"\u00a0", "\u3000", "\u2028", "\u0085", "\u0663", "\ufeff", "\ufffd", "\U0001f600", "名字", "\r", "\v", "\f", "\r\n", "x\u3000", "\u00a0y"}
 
 // parse-total -seed S -n N [-inputs file] [-programs file]: the parse postcondition on many texts.
 func parseTotal(args []string) (any, error) {
@@ -195,14 +196,19 @@ func parseTotal(args []string) (any, error) {
 	rng := rand.New(rand.NewSource(*seed))
 	sum := &Summary{Extra: map[string]any{}}
 	seen := map[string]bool{}
+	hung := false
 	try := func(kind, src string) {
-		if seen[src] {
-			return
+		if seen[src] || hung {
+			return // after a hang the stuck goroutine keeps spinning: the first hanging input is reported and the sweep stops
 		}
 		seen[src] = true
 		sum.Evaluations++
 		sum.Distinct++
 		if p := checkParse(src); p != "" {
+			if strings.Contains(p, "did not terminate") {
+				hung = true
+				sum.Extra["stopped_after_hang"] = true
+			}
 			sig := fmt.Sprintf("parse:%q", src)
 			if len(sig) > 200 {
 				sig = sig[:200]
